@@ -217,7 +217,7 @@ func runC02(w *World, r *Report) {
 	}
 
 	// ---- skip-report
-	r.Rule("C02.skip-report", "calculateBranch reports unselected targets on every successful return; reportBranch propagates transitively", 3)
+	r.Rule("C02.skip-report", "calculateBranch reports unselected targets on every successful return, pruning selected ones only after all branches ran; reportBranch propagates transitively", 4)
 	cb := w.Fn("compose", "runner.calculateBranch")
 	rb := w.Fn("compose", "channelManager.reportBranch")
 	{
@@ -226,8 +226,29 @@ func runC02(w *World, r *Report) {
 			return ok && isNilConst(ret.Results[1])
 		}, avoid: func(in ssa.Instruction) bool { return isCallTo(in, rb) }}.exists()
 		r.Check(!skip, "C02.skip-report", "calculateBranch: reportBranch before every successful return", cb.Pos(), "no nil-error return skips reportBranch", "branch outcomes are not always reported (unselected targets keep waiting forever / run when they should be skipped): "+wit)
-		// a target is put in the skipped set only if no selected key equals it
-		// (structural: the `skipped = false` store is guarded by node == w)
+		// pruning of the skipped set (a target selected by ANY branch of the node is not skipped) happens only
+		// after every branch has been evaluated: from a delete(skipped, selected) no branch evaluation is reachable
+		var dels []ssa.Instruction
+		instrs(cb, func(in ssa.Instruction) {
+			if isBuiltin(in, "delete") {
+				dels = append(dels, in)
+			}
+		})
+		isBranchEval := func(in ssa.Instruction) bool {
+			c, ok := in.(*ssa.Call)
+			if !ok || c.Call.IsInvoke() || staticCallee(c) != nil {
+				return false
+			}
+			f, _ := loadedField(c.Call.Value)
+			return f != nil && (f.Name() == "invoke" || f.Name() == "collect")
+		}
+		okPrune := len(dels) > 0
+		for _, d := range dels {
+			if again, _ := (pathQuery{fn: cb, from: d, goal: isBranchEval}).exists(); again {
+				okPrune = false
+			}
+		}
+		r.Check(okPrune, "C02.skip-report", "calculateBranch: skipped set pruned after all branches were evaluated", cb.Pos(), "no branch evaluation follows the pruning", "the skipped set is pruned while branches are still being evaluated: a target selected by an earlier branch and discarded by a later one stays skipped (order-dependent)")
 	}
 	{
 		// reportBranch: work-list loop re-reads len(nKeys) where nKeys grows inside the loop, over c.successors
